@@ -727,27 +727,34 @@ def exec_model(spec):
                     except Exception as ex:
                         res['fails'].append(('mps:export-inspection-raised', 'EXC:%s %s' % (type(ex).__name__, str(ex)[:150]), lname))
                 res['sel'].append(rec)
-        check_selection('after-forward')
-        # alpha := alpha' with the arg-max of every decision moved (optimizer step / load_state_dict / manual edit),
-        # then summary() and export() WITHOUT a forward pass in between
-        with torch.no_grad():
-            for n_, m in qs.values():
-                P = m.alpha.shape[0]
-                C = m.alpha.shape[1] if m.alpha.dim() == 2 else 1
-                old = m.alpha.detach()
-                oldc = [old[:, j].tolist() for j in range(C)] if old.dim() == 2 else [old.tolist()]
-                new = gen_alpha(rng, P, C)
-                for j in range(C):
-                    if P > 1 and argmax_first(new[j]) == argmax_first(oldc[j]):
-                        k, o2 = argmax_first(new[j]), (argmax_first(new[j]) + 1 + rng.randrange(P - 1)) % P
-                        new[j][k], new[j][o2] = new[j][o2], new[j][k]
-                a = torch.tensor(new, dtype=torch.float32)
-                set_alpha(m, a.t().contiguous() if m.alpha.dim() == 2 else a[0], spec.get('route', 'copy'))
-        check_selection('after-alpha-update')
-        # ... and now a forward pass in the same autograd mode, with no train()/eval()/option call in between: the
-        # evaluated coefficients must follow the NEW alpha, and agree with summary()/export()
-        before = forward_and_judge(':second-forward-after-alpha-update')
-        check_selection('after-forward')
+        def move_argmax():
+            # alpha := alpha' with the arg-max of every decision moved (optimizer step / .data = / load_state_dict)
+            with torch.no_grad():
+                for n_, m in qs.values():
+                    P = m.alpha.shape[0]
+                    C = m.alpha.shape[1] if m.alpha.dim() == 2 else 1
+                    old = m.alpha.detach()
+                    oldc = [old[:, j].tolist() for j in range(C)] if old.dim() == 2 else [old.tolist()]
+                    new = gen_alpha(rng, P, C)
+                    for j in range(C):
+                        if P > 1 and argmax_first(new[j]) == argmax_first(oldc[j]):
+                            k, o2 = argmax_first(new[j]), (argmax_first(new[j]) + 1 + rng.randrange(P - 1)) % P
+                            new[j][k], new[j][o2] = new[j][o2], new[j][k]
+                    a = torch.tensor(new, dtype=torch.float32)
+                    set_alpha(m, a.t().contiguous() if m.alpha.dim() == 2 else a[0], spec.get('route', 'copy'))
+        if spec.get('direct'):
+            # forward -> alpha update -> forward with NOTHING in between (summary()/export() toggle module modes)
+            move_argmax()
+            before = forward_and_judge(':second-forward-after-alpha-update')
+            check_selection('after-forward')
+        else:
+            check_selection('after-forward')
+            # then summary() and export() WITHOUT a forward pass in between
+            move_argmax()
+            check_selection('after-alpha-update')
+            # ... and a forward pass in the same autograd mode: the evaluated coefficients must follow the NEW alpha
+            before = forward_and_judge(':second-forward-after-alpha-update')
+            check_selection('after-forward')
     except Exception as ex:
         import traceback
         if pytorch_inference_limit(ex):
@@ -775,7 +782,7 @@ def specs_models(ctx, count):
                 ops.append((rng.choice(['train', 'eval']),))
         out.append({'seed': rng.randrange(1 << 30), 'w1': rng.choice([2, 4, 6]), 'w2': rng.choice([3, 4, 8]), 'per_channel': rng.random() < 0.5,
                     'wprec': wp, 'aprec': ap, 'ctor': (rng.choice(TEMPS), rng.random() < 0.4, rng.random() < 0.4, False), 'ops': ops,
-                    'final_mode': 'eval' if i % 3 else 'train', 'grad_mode': GRAD_MODES[(i // 3) % 3] if i % 3 else rng.choice(GRAD_MODES), 'route': rng.choice(ROUTES)})
+                    'final_mode': 'eval' if i % 3 else 'train', 'grad_mode': GRAD_MODES[(i // 3) % 3] if i % 3 else rng.choice(GRAD_MODES), 'route': rng.choice(ROUTES), 'direct': i % 2 == 0})
     return out
 
 
@@ -828,7 +835,7 @@ def run(ctx):
         cfgs = specs_config(ctx)
         results += list(pool.map(exec_case, cfgs, chunksize=8))
         closure = {}
-        maxdepth = 5 if ctx.quick else 9
+        maxdepth = 6 if ctx.quick else 9
         for kind, roots in (('layer', [{'kind': 'layer', 'n': 3, 'c': 1, 'ctor': (T0, False, False, False), 'alpha': A0['layer'], 'mode': 'train'}]),
                             ('chan', [{'kind': 'chan', 'n': 3, 'c': 2, 'ctor': (T0, False, False, False), 'alpha': A0['chan'], 'mode': 'train'}]),
                             ('comb', [{'kind': 'comb', 'n': 3, 'c': 1, 'ctor': (T0, False, g, False), 'alpha': A0['comb'], 'mode': 'train'} for g in (False, True)])):
